@@ -1,5 +1,7 @@
-"""C06 registry entry (loaded by bin/registry.py).  TLS 1.2/1.1 part; the TLS 1.3 targets are added by the *13* files."""
+"""C06 registry entry (loaded by bin/registry.py).  TLS 1.2/1.1 targets are defined here; the TLS 1.3 targets come from reg13.py (same directory)."""
+import importlib.util, os
 WRAPS = ['psGetEntropy', 'psGetTime', 'psDiffMsecs', 'psCompareTime', 'time']
+_SRC12 = ['props/C06/seq12.cc', 'harness/puppet12.cc', 'harness/wraps.c']
 PROP = dict(
     level='exploration',
     level_text='Generated search over (victim role x version/suite x client-auth x EMS pairing) x every kind of single-step deviation of the legal handshake trace '
@@ -19,6 +21,21 @@ PROP = dict(
          'distinct by (role, version+suite, client-auth, op, position[, injected message])',
     assumptions=['session-id / ticket resumption traces are not generated yet (the puppet supports session-id resumption; the victim-side cache plumbing is not wired into this target)',
                  'DTLS ordering deviations belong to C16'],
-    targets=[dict(name='c06_seq12', src=['props/C06/seq12.cc', 'harness/puppet12.cc', 'harness/wraps.c'], libs=['-lcrypto'], wraps=WRAPS, env={'VERIF_DIR': '/verif'},
-                  quick=dict(cases=2400, secs=100), thorough=dict(cases=120000, secs=1100))],
+    targets=[
+        # random: 0-2 deviations (mostly two-step) x framing variations x EMS pairings x resumption
+        dict(name='c06_seq12', src=_SRC12, libs=['-lcrypto'], wraps=WRAPS, env={'VERIF_DIR': '/verif'},
+             quick=dict(cases=2000, secs=70), thorough=dict(cases=100000, secs=900)),
+        # bounded-exhaustive: every single-step deviation of every legal trace (48 modes), default framing; quick runs every 5th index (offset = seed mod 5)
+        dict(name='c06_seq12_singles', src=_SRC12, libs=['-lcrypto'], wraps=WRAPS, env={'VERIF_DIR': '/verif'}, defs=['C06_ENUM'], enumerate=True,
+             quick=dict(cases=0, secs=70, stride=5), thorough=dict(cases=0, secs=600, stride=1)),
+    ],
 )
+_r13 = os.path.join(os.path.dirname(os.path.abspath(__file__)), 'reg13.py')
+if os.environ.get('C06_ONLY') == '13':
+    PROP['targets'] = []
+if os.path.exists(_r13) and os.environ.get('C06_ONLY') != '12':   # C06_ONLY=12|13: development knob, run only one half
+    _spec = importlib.util.spec_from_file_location('reg_C06_13', _r13)
+    _m = importlib.util.module_from_spec(_spec)
+    _spec.loader.exec_module(_m)
+    PROP['targets'] += _m.TARGETS
+
